@@ -360,18 +360,19 @@ Section ImmVerify.
     end.
 
   (* Segmentation: the planned writes are served in order; the first failing segment ends the
-     read with an error.  Returns the chunks handed to consumer.write and whether the read completed. *)
+     read with that error.  Returns the chunks handed to consumer.write and the error, None = the
+     read completed. *)
   Fixpoint serve (c : cap H) (dn : dnode H) (ws : list seg_write)
-           (script : N -> list (Z * share H UB * (nat -> list Z)) * list Z) : list (list N) * bool :=
+           (script : N -> list (Z * share H UB * (nat -> list Z)) * list Z) : list (list N) * option verr :=
     match ws with
-    | [] => ([], true)
+    | [] => ([], None)
     | w :: r =>
       let (tries, ord) := script (w_segnum w) in
       match fetch_segment c dn (Z.of_N (w_segnum w)) tries ord with
       | (dn', inl segment) =>
-        let (chunks, ok) := serve c dn' r script in
-        (slice (N.to_nat (w_off w)) (N.to_nat (w_len w)) segment :: chunks, ok)
-      | (_, inr _) => ([], false)
+        let (chunks, res) := serve c dn' r script in
+        (slice (N.to_nat (w_off w)) (N.to_nat (w_len w)) segment :: chunks, res)
+      | (_, inr e) => ([], Some e)
       end
     end.
 
@@ -509,6 +510,7 @@ Definition sym_g_cap := g_cap hs HPair HPad HBlock HSeg ub sym_ueb_hash UbOk.
 Definition sym_g_share := g_share hs HPair HPad HBlock HSeg ub UbOk.
 
 Definition gres_class (r : gres) : N := match r with GBlock _ => 0%N | GErr e => verr_class e end.
+Definition res_class (r : option verr) : N := match r with None => 0%N | Some e => verr_class e end.
 
 (* ---- helpers for the harness (comparisons, a table-driven decoder) ------------------------------- *)
 Fixpoint nblocks_eqb (a b : list (N * list N)) : bool :=
